@@ -164,6 +164,11 @@ def run(ctx):
         # non-positive or non-numeric repeat counts, including texts for which str.isdigit() and int() disagree
         for bad in ("0", "-1", "x", "1.5", "", "-0", "+0", "--2", "+-2", "\u00b2", "\u2460", "\u00bd", "1e2", "0x2", "2.0", " ", "1 2", "\u0661x", "\u0660", "2-"):
             xml_faults["repeat=%s" % bad] = content.replace(b"<table:table-cell ", b'<table:table-cell table:number-columns-repeated="%s" ' % bad.encode(), 1)
+        # content.xml declaring an encoding the XML parser does not know, cannot use, or that is no text encoding: either it is
+        # read correctly or it is a data-format error
+        body = text.split("?>", 1)[1] if text.startswith("<?xml") else text
+        for enc_name in ("no-such-encoding", "Shift_JIS", "Big5", "rot13", "undefined", "utf-7", "hex", "idna"):
+            xml_faults["declared-encoding=%s" % enc_name] = ('<?xml version="1.0" encoding="%s"?>' % enc_name + body).encode("ascii", "xmlcharrefreplace")
         for name, data in xml_faults.items():
             path = os.path.join(tmp, "fault.ods")
             import zipfile
@@ -173,6 +178,8 @@ def run(ctx):
                     z.writestr("content.xml", data)
             impl = impl_rows(path, 1)
             ctx.count(key=("xmlfault", name), branch="fault:" + impl.split(" ")[0])
+            if name.startswith("declared-encoding=") and impl.startswith("ok "):
+                continue
             if impl != "data:Format":
                 ctx.violation("C15:fault:%s:%s" % (name.split("@")[0].split("=")[0], impl.split(" ")[0]), "%s -> %s instead of a data-format error" % (name, impl), {"fault": name})
         # through the validating reader with an ODS format CID
@@ -186,6 +193,21 @@ def run(ctx):
         ctx.count(key="validio-sheet2", branch="validio")
         if got != [["x", "y"], ["z", ""]]:
             ctx.violation("C15:validio-sheet", "cutplace.rows with Sheet 2 returns %r" % got, {"got": got})
+        # sheet numbers with more than one digit, requested through the CID's Sheet property
+        many = [[["sheet%d" % (k_ + 1), "x"]] for k_ in range(12)]
+        p3 = os.path.join(tmp, "many.ods")
+        ods_enc.write_ods(p3, ods_enc.encode_doc({n_: False for n_ in FEATURES}, many))
+        for want_sheet in (9, 10, 11, 12, 13, 20, 100):
+            cid_n = interface.Cid()
+            cid_n.read("c15n", [["D", "Format", "ODS"], ["D", "Sheet", str(want_sheet)], ["F", "a"], ["F", "b", "", "X"]])
+            try:
+                got_n = "ok %r" % list(validio.rows(cid_n, p3))
+            except Exception as error:  # noqa
+                got_n = core.classify_exception(error)
+            want_n = ("ok %r" % many[want_sheet - 1]) if want_sheet <= 12 else "data:Format"
+            ctx.count(key=("validio-sheet", want_sheet), branch="validio")
+            if got_n != want_n:
+                ctx.violation("C15:validio-sheet:%d" % want_sheet, "Sheet %d of a 12 sheet document through a CID: %s, expected %s" % (want_sheet, got_n, want_n), {"sheet": want_sheet, "got": got_n})
     finally:
         shutil.rmtree(tmp, ignore_errors=True)
 
